@@ -31,6 +31,7 @@ SIGS: Dict[str, List[Tuple[str, Any]]] = {
     "torch.nn.functional.pad": [("input", REQ), ("pad", REQ), ("mode", "constant"), ("value", None)],
     "torch.clip": [("input", REQ), ("min", None), ("max", None)],
     "torch.clamp": [("input", REQ), ("min", None), ("max", None)],
+    "torch.nn.init.normal_": [("tensor", REQ), ("mean", 0.0), ("std", 1.0), ("generator", None)],
     "torch.randint": [("low", REQ), ("high", REQ), ("size", REQ)],
 }
 
